@@ -5,3 +5,8 @@ chk("C17",
     "The real CountMinSketch is driven through generated Add/Addn/Estimate/EnsureCapacity sequences (adversarial and random hashes, tables 16..2^18 quick / 2^24 thorough) while an exact reference count and a table copy around every reset decide the lower bound, the exact halving, reset periodicity, bounds (panic) and no-shrink. Sampling of an unbounded input space: held on the executions observed.",
     "Trusts Go's bounds checks to expose out-of-range table accesses and the harness's exact reference counter; table sizes above 2^24 not exercised.",
     "reference-model monitor + invariant assertions on the live sketch")
+
+chk("C07",
+    "A real TinyLfu is driven directly with generated insert/access/cost-update/remove/forced-climb/sketch-fill steps (capacities 1..1000, costs 1..capacity, arbitrary sample counts and sketch contents); an invariant walker checks region membership, sizes, counts, totals, capacity bounds and conservation after every single step, and a progress watchdog reports non-termination. Sampled sequences, not exhaustive.",
+    "Policy is driven the way sinkWrite drives it, single-threaded; the walker trusts the white-box snapshot accessor.",
+    "structural-invariant walker at every step + progress watchdog")
